@@ -314,6 +314,7 @@ func (x *Exec) builtin(p *Path, b *ssa.Builtin, cc *ssa.CallCommon, args []Val) 
 	case "delete":
 		m := args[0]
 		x.guardCheckMap(p, m, true, nil)
+		x.insertOnlyCheck(p, cc.Args[0].Type(), m, args[1], nil)
 		e.mapDelete(p, cc.Args[0].Type(), m.S, args[1].S)
 		return Val{K: KTuple}
 	case "append":
